@@ -4,7 +4,7 @@ import random
 LEVEL = "exploration"
 BATCH = 8
 BATCH_TIMEOUT = 3000
-RULE = ("case = (with/without bypass, stream width, DRAM word ratio 1..8, depth 4..64 DRAM words, base, producer/consumer rate "
+RULE = ("[CORE CASES: a share of the cases (names core*) runs the same front-end and oracle on a port of the real LiteDRAMCrossbar + LiteDRAMController with the reference DRAM on DFI, refresh running, DFI protocol events of the reference model added to the witnesses] case = (with/without bypass, stream width, DRAM word ratio 1..8, depth 4..64 DRAM words, base, producer/consumer rate "
         "schedule built from alternating fill / drain / trickle phases, memory stall profile, seed) on a two-port pulsed core "
         "stub with one shared store and global acceptance order; oracle: output stream == input stream (every word carries a "
         "unique tag: first divergence is the witness), no write is accepted for a location whose previous word has not been "
